@@ -11,7 +11,7 @@ from math import pi, sqrt
 
 # Requires that the pyparsing module is installed.
 
-from pyparsing import (Literal, Optional, White, Regex,
+from pyparsing import (Literal, Optional, White, Regex, Empty,
                        ZeroOrMore, OneOrMore, Forward, StringEnd, Group)
 
 from .core import default_table, isatom, isisotope, ision, change_table
@@ -884,7 +884,10 @@ def formula_grammar(table):
 
     mixture << (compound | grouped_mixture)
     formula = (compound | ungrouped_mixture | grouped_mixture)
-    grammar = Optional(formula, default=Formula()) + StringEnd()
+    # Each parse of a blank string needs its own empty Formula; a default value
+    # on Optional() would be one object shared (and mutated) by all callers.
+    empty = Empty().setParseAction(lambda s, l, t: Formula())
+    grammar = (formula | empty) + StringEnd()
 
     grammar.setName('Chemical Formula')
     return grammar
